@@ -224,3 +224,46 @@ clock_loop(INS, "ImportanceNestedSampler", "ImportanceNestedSampler", {
     "finalise": READER,            # (frame inference: it checkpoints)
 }, replay={"module": "replay.custom", "func": "script_probe",
            "script": "c12_ins_timing.py", "args": []})
+
+
+# ======================================================================
+# C12: every checkpoint is taken in a resumable state.
+# NestedSampler.consume_sample records the worst live point (nested_samples,
+# evidence state, iteration) BEFORE it looks for the replacement.  When the
+# pool runs empty during that search it calls check_state(), which may
+# retrain the flow, and train_proposal (contract in c12_resume.py) calls
+# checkpoint(periodic=True) when checkpoint_on_training is set.  A
+# checkpoint written there pickles a sampler whose last recorded point is
+# still in the live set: a run resumed from it records and integrates that
+# point a second time.  The '#ckpt' contract of check_state therefore
+# REQUIRES that, with checkpoint_on_training, the point recorded last has
+# left the live set; consume_sample#ckpt is the C01 contract of the real
+# body checked against it.
+# ======================================================================
+_nsb = SHAPES["NestedSampler"]
+shape("NestedSamplerCkpt", dict(_nsb.attrs, checkpoint_on_training="Bool"),
+      cls=_nsb.cls, invariants=_nsb.invariants, methods=_nsb.methods)
+_cs = CONTRACTS[(NS, "NestedSampler.check_state")]
+_LAST = "self.nested_samples[len(self.nested_samples) - 1]"
+contract(
+    NS, "NestedSampler.check_state", variant_name="ckpt", props=["C12"],
+    trusted=True, verify=False, self_shape="NestedSamplerCkpt",
+    trusted_reason="the frame contract of C01 plus: training may write a "
+    "checkpoint when checkpoint_on_training is set (train_proposal, "
+    "contract in c12_resume.py), so the state must be resumable then",
+    params=_cs.params, modifies=_cs.modifies, ensures=_cs.ensures,
+    requires=list(_cs.requires) + [
+        "implies(self.checkpoint_on_training and "
+        "len(self.nested_samples) > 0 and self.live_points is not None, "
+        f"not row_eq(self.live_points[0], {_LAST}))"],
+)
+_cb = CONTRACTS[(NS, "NestedSampler.consume_sample")]
+contract(
+    NS, "NestedSampler.consume_sample", variant_name="ckpt", props=["C12"],
+    self_shape="NestedSamplerCkpt", params=_cb.params,
+    requires=_cb.requires, modifies=_cb.modifies, loops=_cb.loops,
+    hints=list(_cb.hints), ensures=[],
+    ident_name="NestedSampler.consume_sample#ckpt",
+    replay={"module": "replay.custom", "func": "script_probe",
+            "script": "c12_ckpt_on_training.py", "args": []},
+)
